@@ -1,13 +1,180 @@
 /-
-  C03 (Deribit part) — placeholder while the harness is brought up; real theorems follow.
+  C03 (Deribit part) — at a frozen market state with bids ≤ mark ≤ asks no sequence of buy / sell / deposit /
+  withdraw, accepted or rejected, raises the account value beyond wallet dust; cash, wallet and option amounts
+  never become negative; a sell never pays for more than is held.
+
+  Model: Demeter/Deribit.lean (repaired code: /repo 4fb272a 1e18c04 sell checks the holding first, 409c53b
+  negative deposits/withdrawals rejected).  Value = wallet(token) + exchange cash + Σ amount × round(mark), the
+  valuation `get_market_balance` itself uses (C15_equity).  Exact arithmetic (`DCtx.exact`).
 -/
-import Proofs.Lemmas.Deribit
+import Proofs.Lemmas.DeribitValue
 namespace Demeter
 open Demeter.Deribit
 
-/-- an accepted withdrawal never takes more than the cash held (every context) -/
-theorem C03_deribit_withdraw_bounded (cx : DCtx) (c : TokenCfg) (s s' : DState) (a : Rat) (r : Res)
-    (h : withdraw cx c s a = (.ok r, s')) : 0 ≤ a ∧ 0 ≤ s'.cash ∧ s'.cash = cx.num.sub s.cash a := by
+namespace Deribit
+/-- wallet balance of the market's token -/
+def walletBal (c : TokenCfg) (s : DState) : Rat := (AList.get? s.wallet c.token).getD 0
+
+/-- what the account is worth in the market's token: wallet + exchange cash + options at (rounded) mark -/
+def acctValue (c : TokenCfg) (s : DState) : Rat := walletBal c s + s.cash + markValue c s.book s.positions
+
+/-- the frozen market data the property allows: books in good shape and bids ≤ mark ≤ asks, with the mark as the
+    valuation uses it (rounded to the fee step), non-negative marks and bid prices -/
+structure FrozenOK (c : TokenCfg) (book : List Instr) : Prop where
+  inv : BookInv book
+  mark_nonneg : ∀ i ∈ book, 0 ≤ i.mark
+  asks_ge : ∀ i ∈ book, ∀ l ∈ i.asks, roundDec c.feeExp i.mark ≤ l.price
+  bids_le : ∀ i ∈ book, ∀ l ∈ i.bids, l.price ≤ roundDec c.feeExp i.mark
+  bids_nonneg : ∀ i ∈ book, ∀ l ∈ i.bids, 0 ≤ l.price
+
+/-- positions dict in good shape: unique keys, every record filed under its own instrument name -/
+def PosInv (s : DState) : Prop := (s.positions.map Prod.fst).Nodup ∧ ∀ kp ∈ s.positions, kp.2.name = kp.1
+
+theorem get_mem {m : AList String Position} {k : String} {p : Position} (h : AList.get? m k = some p) : (k, p) ∈ m := by
+  simp only [AList.get?, Option.map_eq_some_iff] at h
+  obtain ⟨kp, hfind, rfl⟩ := h
+  have hm := List.mem_of_find?_eq_some hfind
+  have hk := List.find?_some hfind
+  simp only [decide_eq_true_eq] at hk
+  rw [← hk]; exact hm
+
+theorem tradeFee_nonneg (c : TokenCfg) (hc : 0 ≤ c.tradeFee) (a p : Rat) (ha : 0 ≤ a) (hp : 0 ≤ p) :
+    0 ≤ tradeFee DCtx.exact c a p := by
+  unfold tradeFee
+  apply roundDec_nonneg
+  simp only [exact_num, NumCtx.exact_mul]
+  have hm : (0 : Rat) ≤ maxFeeRate := by rw [C15_constants.2.2.1]; norm_num
+  exact le_min (mul_nonneg hc ha) (mul_nonneg hm hp)
+end Deribit
+
+/-- **a buy never creates value** (exact arithmetic, asks ≥ mark): the account value drops by the fee and
+    by what was paid above mark -/
+theorem C03_deribit_buy_no_value_created (c : TokenCfg) (hc : 0 ≤ c.tradeFee) (s s' : DState) (r : Req) (res : Res)
+    (hf : FrozenOK c s.book) (hp : PosInv s) (h : buy DCtx.exact c s r = (.ok res, s')) :
+    acctValue c s' ≤ acctValue c s := by
+  obtain ⟨_, ck, hck, fills, prem, fee, hfills, hprem, hfee, _, hcash, _, hs'⟩ := buy_ok h
+  obtain ⟨hfind, _, _, _, _⟩ := checkTx_ok hck
+  have hmem := findInstr_mem hfind
+  obtain ⟨f, hfl⟩ := availAsks_filter ck.ins r.mult
+  have hside := (hf.inv ck.ins hmem).1
+  obtain ⟨hsum, hnn, hall⟩ := fills_props hck ck.ins.asks f (by simp [availSide, hfl]) hside
+  rw [← hfl, ← hfills] at hsum hall
+  set mR := roundDec c.feeExp ck.ins.mark with hmR
+  have hmR0 : 0 ≤ mR := roundDec_nonneg _ (hf.mark_nonneg ck.ins hmem)
+  have hge : ∀ x ∈ fills, 0 ≤ x.amount ∧ mR ≤ x.price := by
+    intro x hx
+    obtain ⟨h0, l, hl, _, hpe⟩ := hall x hx
+    exact ⟨h0, hpe ▸ hf.asks_ge ck.ins hmem l hl⟩
+  have hcost : mR * ck.amount ≤ fillCost fills := by rw [← hsum]; exact fillCost_ge fills mR hge
+  have hcost0 : 0 ≤ fillCost fills := fillCost_nonneg fills (fun x hx => ⟨(hge x hx).1, le_trans hmR0 (hge x hx).2⟩)
+  rw [premiumOf_exact] at hprem
+  have hfee0 : 0 ≤ fee := by rw [hfee, hprem]; exact tradeFee_nonneg c hc _ _ hnn hcost0
+  -- value of the positions
+  have hname : ∀ p, AList.get? s.positions r.name = some p → p.name = r.name := fun p hg => hp.2 _ (get_mem hg)
+  have hpos : markValue c s'.book s'.positions = markValue c s.book s.positions + ck.amount * mR := by
+    rw [hs']
+    simp only []
+    rw [markValue_setAsks, markValue_set c s.book s.positions r.name _ hp.1]
+    unfold heldValue boughtPosition
+    cases hg : AList.get? s.positions r.name with
+    | none => simp only [posValue, hfind]; ring
+    | some p =>
+      simp only [posValue, hname p hg, hfind, exact_num, NumCtx.exact_add]; ring
+  have hw : walletBal c s' = walletBal c s := by rw [hs']; rfl
+  unfold acctValue
+  rw [hpos, hw, hcash, hprem]
+  simp only [exact_num, NumCtx.exact_sub, NumCtx.exact_add]
+  nlinarith
+
+/-- **a sell never creates value** (exact arithmetic, bids ≤ mark) -/
+theorem C03_deribit_sell_no_value_created (c : TokenCfg) (hc : 0 ≤ c.tradeFee) (s s' : DState) (r : Req) (res : Res)
+    (hf : FrozenOK c s.book) (hp : PosInv s) (h : sell DCtx.exact c s r = (.ok res, s')) :
+    acctValue c s' ≤ acctValue c s := by
+  obtain ⟨_, ck, p, bids, hck, hget, hle, hbids, fills, prem, fee, hfills, hprem, hfee, _, hs'⟩ := sell_ok h
+  obtain ⟨hfind, _, _, _, _⟩ := checkTx_ok hck
+  have hmem := findInstr_mem hfind
+  obtain ⟨f, hfl⟩ := availBids_filter hbids
+  have hside := (hf.inv ck.ins hmem).2
+  obtain ⟨hsum, hnn, hall⟩ := fills_props hck ck.ins.bids f (by simp [availSide, hbids, hfl]) hside
+  rw [← hfl, ← hfills] at hsum hall
+  set mR := roundDec c.feeExp ck.ins.mark with hmR
+  have hle' : ∀ x ∈ fills, 0 ≤ x.amount ∧ x.price ≤ mR := by
+    intro x hx
+    obtain ⟨h0, l, hl, _, hpe⟩ := hall x hx
+    exact ⟨h0, hpe ▸ hf.bids_le ck.ins hmem l hl⟩
+  have hcost : fillCost fills ≤ mR * ck.amount := by rw [← hsum]; exact fillCost_le fills mR hle'
+  have hcost0 : 0 ≤ fillCost fills := fillCost_nonneg fills (fun x hx => by
+    obtain ⟨h0, l, hl, _, hpe⟩ := hall x hx
+    exact ⟨h0, hpe ▸ hf.bids_nonneg ck.ins hmem l hl⟩)
+  rw [premiumOf_exact] at hprem
+  have hfee0 : 0 ≤ fee := by rw [hfee, hprem]; exact tradeFee_nonneg c hc _ _ hnn hcost0
+  have hname : p.name = r.name := hp.2 _ (get_mem hget)
+  have hpos : markValue c s'.book s'.positions = markValue c s.book s.positions - ck.amount * mR := by
+    rw [hs']
+    simp only []
+    rw [markValue_setBids]
+    have hheld : heldValue c s.book s.positions r.name = p.amount * mR := by
+      simp only [heldValue, hget, posValue, hname, hfind, hmR]
+    split
+    · rename_i hz
+      simp only [soldPosition, exact_num, NumCtx.exact_sub] at hz
+      have : p.amount = ck.amount := le_antisymm (by linarith) hle
+      rw [markValue_erase c s.book s.positions r.name hp.1, hheld, this]
+    · rw [markValue_set c s.book s.positions r.name _ hp.1, hheld]
+      simp only [posValue, soldPosition, hname, hfind, exact_num, NumCtx.exact_sub]
+      ring
+  have hw : walletBal c s' = walletBal c s := by rw [hs']; rfl
+  have hcash : s'.cash = s.cash + (fillCost fills - fee) := by rw [hs', hprem]; simp
+  unfold acctValue
+  rw [hpos, hw, hcash]
+  nlinarith
+
+
+/-- **a deposit creates at most wallet dust** (exact arithmetic): `Asset.sub` snaps a remainder below 1e-5 of
+    the balance to zero, so the exchange may receive up to `dust × |wallet balance|` more than the wallet gave -/
+theorem C03_deribit_deposit_dust (c : TokenCfg) (s s' : DState) (a : Rat) (res : Res)
+    (h : deposit DCtx.exact c s a = (.ok res, s')) :
+    acctValue c s' ≤ acctValue c s + assetDust * |walletBal c s| ∧ 0 ≤ a := by
+  unfold deposit at h
+  split at h
+  · simp at h
+  · rename_i hneg
+    split at h
+    · simp at h
+    · simp at h
+    · rename_i w hw
+      simp only [Prod.mk.injEq] at h
+      obtain ⟨_, hs⟩ := h
+      subst hs
+      refine ⟨?_, not_lt.mp hneg⟩
+      simp only [acctValue, walletBal, exact_num, NumCtx.exact_add]
+      unfold Wallet.debit at hw
+      cases hg : AList.get? s.wallet c.token with
+      | some b =>
+        simp only [hg] at hw
+        split at hw
+        · rename_i b' hsub
+          simp only [Except.ok.injEq] at hw
+          subst hw
+          rw [alist_get_set]
+          simp only [Option.getD_some]
+          have := (assetSub_exact hsub).1
+          linarith
+        · simp at hw
+      | none =>
+        simp only [hg] at hw
+        split at hw
+        · simp only [Except.ok.injEq] at hw
+          subst hw
+          rw [alist_get_set]
+          simp only [Option.getD_some, Option.getD_none, abs_zero, mul_zero]
+          linarith
+        · simp at hw
+
+/-- **a withdrawal moves value, it creates none**, and it never takes more than the cash held -/
+theorem C03_deribit_withdraw_conserves (c : TokenCfg) (s s' : DState) (a : Rat) (res : Res)
+    (h : withdraw DCtx.exact c s a = (.ok res, s')) :
+    acctValue c s' = acctValue c s ∧ 0 ≤ a ∧ a ≤ s.cash ∧ 0 ≤ s'.cash := by
   unfold withdraw at h
   split at h
   · simp at h
@@ -19,6 +186,453 @@ theorem C03_deribit_withdraw_bounded (cx : DCtx) (c : TokenCfg) (s s' : DState) 
       simp only [Prod.mk.injEq] at h
       obtain ⟨_, hs⟩ := h
       subst hs
-      exact ⟨not_lt.mp hneg, not_lt.mp hl, rfl⟩
+      simp only [exact_num, NumCtx.exact_sub] at hl ⊢
+      refine ⟨?_, not_lt.mp hneg, by linarith [not_lt.mp hl], not_lt.mp hl⟩
+      simp only [acctValue, walletBal, Wallet.credit, assetAdd, NumCtx.exact_add]
+      cases hg : AList.get? s.wallet c.token with
+      | some b => simp only [alist_get_set, Option.getD_some]; ring
+      | none => simp only [alist_get_set, Option.getD_some, Option.getD_none]; ring
+
+/-! ### the invariants travel along a sequence -/
+
+namespace Deribit
+
+/-- what the user can call (the frozen-market operations of the property; `update` is the bar loop's) -/
+def Op.isUser : Op → Bool
+  | .update => false
+  | _ => true
+
+/-- instrument names unique -/
+def NamesNodup (book : List Instr) : Prop := (book.map (·.name)).Nodup
+
+theorem findInstr_unique {book : List Instr} (hn : NamesNodup book) {i j : Instr} (hi : findInstr book i.name = some j)
+    (hmem : i ∈ book) : j = i :=
+  List.inj_on_of_nodup_map hn (findInstr_mem hi) hmem (by
+    have := List.find?_some hi; simpa using this)
+
+theorem setAsks_names (book : List Instr) (n : String) (ls : List Level) :
+    (setAsks book n ls).map (·.name) = book.map (·.name) := by
+  unfold setAsks; rw [List.map_map]; apply List.map_congr_left; intro i _; simp only [Function.comp]; split <;> rfl
+theorem setBids_names (book : List Instr) (n : String) (ls : List Level) :
+    (setBids book n ls).map (·.name) = book.map (·.name) := by
+  unfold setBids; rw [List.map_map]; apply List.map_congr_left; intro i _; simp only [Function.comp]; split <;> rfl
+
+theorem prices_of_new {cx : DCtx} {old : List Level} {fs : List Fill} {l : Level} (hl : l ∈ newOrderList cx old fs) :
+    ∃ l0 ∈ old, l.price = l0.price := by
+  have : l.price ∈ (newOrderList cx old fs).map (·.price) := List.mem_map_of_mem (f := (·.price)) hl
+  rw [newOrderList_prices] at this
+  obtain ⟨l0, hl0, hp⟩ := List.mem_map.mp this
+  exact ⟨l0, hl0, hp.symm⟩
+
+/-- frozen data stays within the property's constraint when fills are written back: prices, marks and names
+    do not move -/
+theorem frozenOK_step (c : TokenCfg) (s : DState) (op : Op) (hf : FrozenOK c s.book) (hn : NamesNodup s.book) :
+    FrozenOK c (step DCtx.exact c s op).2.book ∧ NamesNodup (step DCtx.exact c s op).2.book := by
+  have hinv := step_bookInv c s op hf.inv
+  cases op with
+  | buy r =>
+    rcases hb : buy DCtx.exact c s r with ⟨o, s'⟩
+    cases o with
+    | error e => simp only [step, hb]; rw [buy_err hb]; exact ⟨hf, hn⟩
+    | ok res =>
+      obtain ⟨_, ck, hck, fills, _, _, _, _, _, _, _, _, hs'⟩ := buy_ok hb
+      have hfind := (checkTx_ok hck).1
+      simp only [step, hb] at hinv ⊢
+      have hbook : s'.book = setAsks s.book r.name (newOrderList DCtx.exact ck.ins.asks fills) := by rw [hs']
+      rw [hbook] at hinv ⊢
+      refine ⟨⟨hinv, ?_, ?_, ?_, ?_⟩, by unfold NamesNodup; rw [setAsks_names]; exact hn⟩
+      all_goals
+        intro i hi
+        obtain ⟨i0, hi0, rfl⟩ := List.mem_map.mp hi
+      · split <;> exact hf.mark_nonneg i0 hi0
+      · split
+        · rename_i hname
+          have hck0 : ck.ins = i0 := findInstr_unique hn (hname ▸ hfind) hi0
+          intro l hl
+          obtain ⟨l0, hl0, hp⟩ := prices_of_new hl
+          rw [hp]; exact hf.asks_ge i0 hi0 l0 (hck0 ▸ hl0)
+        · exact hf.asks_ge i0 hi0
+      · split <;> exact hf.bids_le i0 hi0
+      · split <;> exact hf.bids_nonneg i0 hi0
+  | sell r =>
+    rcases hb : sell DCtx.exact c s r with ⟨o, s'⟩
+    cases o with
+    | error e => simp only [step, hb]; rw [sell_err hb]; exact ⟨hf, hn⟩
+    | ok res =>
+      obtain ⟨_, ck, p, bids, hck, _, _, _, fills, _, _, _, _, _, _, hs'⟩ := sell_ok hb
+      have hfind := (checkTx_ok hck).1
+      simp only [step, hb] at hinv ⊢
+      have hbook : s'.book = setBids s.book r.name (newOrderList DCtx.exact ck.ins.bids fills) := by rw [hs']
+      rw [hbook] at hinv ⊢
+      refine ⟨⟨hinv, ?_, ?_, ?_, ?_⟩, by unfold NamesNodup; rw [setBids_names]; exact hn⟩
+      all_goals
+        intro i hi
+        obtain ⟨i0, hi0, rfl⟩ := List.mem_map.mp hi
+      · split <;> exact hf.mark_nonneg i0 hi0
+      · split <;> exact hf.asks_ge i0 hi0
+      · split
+        · rename_i hname
+          have hck0 : ck.ins = i0 := findInstr_unique hn (hname ▸ hfind) hi0
+          intro l hl
+          obtain ⟨l0, hl0, hp⟩ := prices_of_new hl
+          rw [hp]; exact hf.bids_le i0 hi0 l0 (hck0 ▸ hl0)
+        · exact hf.bids_le i0 hi0
+      · split
+        · rename_i hname
+          have hck0 : ck.ins = i0 := findInstr_unique hn (hname ▸ hfind) hi0
+          intro l hl
+          obtain ⟨l0, hl0, hp⟩ := prices_of_new hl
+          rw [hp]; exact hf.bids_nonneg i0 hi0 l0 (hck0 ▸ hl0)
+        · exact hf.bids_nonneg i0 hi0
+  | deposit a =>
+    have : (step DCtx.exact c s (.deposit a)).2.book = s.book := by
+      simp only [step, deposit]; split
+      · rfl
+      · split <;> rfl
+    rw [this]; exact ⟨hf, hn⟩
+  | withdraw a =>
+    have : (step DCtx.exact c s (.withdraw a)).2.book = s.book := by
+      simp only [step, withdraw]; split
+      · rfl
+      · split <;> rfl
+    rw [this]; exact ⟨hf, hn⟩
+  | balance =>
+    have : (step DCtx.exact c s .balance).2.book = s.book := by
+      simp only [step, getMarketBalance]; split
+      · rfl
+      · split
+        · rfl
+        · split <;> rfl
+    rw [this]; exact ⟨hf, hn⟩
+  | update =>
+    have : (step DCtx.exact c s .update).2.book = s.book := by
+      simp only [step, update]; split <;> simp [exercise]
+    rw [this]; exact ⟨hf, hn⟩
+
+/-- the positions dict stays in good shape under the user's operations -/
+theorem posInv_step (c : TokenCfg) (s : DState) (op : Op) (hu : op.isUser = true) (hp : PosInv s) :
+    PosInv (step DCtx.exact c s op).2 := by
+  cases op with
+  | buy r =>
+    rcases hb : buy DCtx.exact c s r with ⟨o, s'⟩
+    cases o with
+    | error e => simp only [step, hb]; rw [buy_err hb]; exact hp
+    | ok res =>
+      obtain ⟨_, ck, hck, fills, _, _, _, _, _, _, _, _, hs'⟩ := buy_ok hb
+      simp only [step, hb]
+      have hpos : s'.positions = AList.set s.positions r.name
+          (boughtPosition DCtx.exact (AList.get? s.positions r.name) r ck (avgPrice DCtx.exact fills)) := by rw [hs']
+      refine ⟨by rw [hpos]; exact alist_keys_set _ _ _ hp.1, ?_⟩
+      intro kp hkp
+      rw [hpos] at hkp
+      rcases alist_mem_set _ _ _ _ hkp with h | h
+      · rw [h]
+        simp only [boughtPosition]
+        cases hg : AList.get? s.positions r.name with
+        | none => rfl
+        | some p => exact hp.2 _ (get_mem hg)
+      · exact hp.2 kp h
+  | sell r =>
+    rcases hb : sell DCtx.exact c s r with ⟨o, s'⟩
+    cases o with
+    | error e => simp only [step, hb]; rw [sell_err hb]; exact hp
+    | ok res =>
+      obtain ⟨_, ck, p, bids, hck, hget, _, _, fills, _, _, _, _, _, _, hs'⟩ := sell_ok hb
+      simp only [step, hb]
+      rw [hs']
+      show PosInv { s with positions := _, cash := _, book := _, actions := _ }
+      unfold PosInv
+      simp only []
+      split
+      · refine ⟨List.Nodup.sublist (List.Sublist.map _ List.filter_sublist) hp.1, ?_⟩
+        intro kp hkp
+        exact hp.2 kp (List.mem_filter.mp hkp).1
+      · refine ⟨alist_keys_set _ _ _ hp.1, ?_⟩
+        intro kp hkp
+        rcases alist_mem_set _ _ _ _ hkp with h | h
+        · rw [h]; exact hp.2 (r.name, p) (get_mem hget)
+        · exact hp.2 kp h
+  | deposit a =>
+    have : (step DCtx.exact c s (.deposit a)).2.positions = s.positions := by
+      simp only [step, deposit]; split
+      · rfl
+      · split <;> rfl
+    exact ⟨by rw [this]; exact hp.1, by rw [this]; exact hp.2⟩
+  | withdraw a =>
+    have : (step DCtx.exact c s (.withdraw a)).2.positions = s.positions := by
+      simp only [step, withdraw]; split
+      · rfl
+      · split <;> rfl
+    exact ⟨by rw [this]; exact hp.1, by rw [this]; exact hp.2⟩
+  | balance =>
+    have : (step DCtx.exact c s .balance).2.positions = s.positions := by
+      simp only [step, getMarketBalance]; split
+      · rfl
+      · split
+        · rfl
+        · split <;> rfl
+    exact ⟨by rw [this]; exact hp.1, by rw [this]; exact hp.2⟩
+  | update => simp [Op.isUser] at hu
+
+/-- the dust a sequence may create: `1e-5 ×` the wallet balance each deposit touches -/
+def dustBound (c : TokenCfg) : DState → List Op → Rat
+  | _, [] => 0
+  | s, o :: os =>
+    (match o with
+      | .deposit _ => assetDust * |walletBal c s|
+      | _ => 0) + dustBound c (step DCtx.exact c s o).2 os
+
+end Deribit
+
+/-- **one operation, accepted or rejected, never creates value beyond the deposit dust** -/
+theorem C03_deribit_step_no_value_created (c : TokenCfg) (hc : 0 ≤ c.tradeFee) (s : DState) (op : Op)
+    (hu : op.isUser = true) (hf : FrozenOK c s.book) (hp : PosInv s) :
+    acctValue c (step DCtx.exact c s op).2 ≤ acctValue c s + dustBound c s [op] := by
+  have hd : 0 ≤ assetDust * |walletBal c s| := mul_nonneg assetDust_nonneg (abs_nonneg _)
+  rcases hstep : step DCtx.exact c s op with ⟨o, s'⟩
+  cases o with
+  | error e =>
+    rw [step_err hstep]
+    simp only [dustBound]
+    split <;> linarith
+  | ok res =>
+    cases op with
+    | buy r => simp only [dustBound, add_zero]; exact C03_deribit_buy_no_value_created c hc s s' r res hf hp hstep
+    | sell r => simp only [dustBound, add_zero]; exact C03_deribit_sell_no_value_created c hc s s' r res hf hp hstep
+    | deposit a => simp only [dustBound, add_zero]; exact (C03_deribit_deposit_dust c s s' a res hstep).1
+    | withdraw a => simp only [dustBound, add_zero]; rw [(C03_deribit_withdraw_conserves c s s' a res hstep).1]
+    | balance =>
+      simp only [dustBound, add_zero]
+      have : acctValue c s' = acctValue c s := by
+        simp only [step, getMarketBalance] at hstep
+        split at hstep
+        · simp only [Prod.mk.injEq] at hstep; rw [← hstep.2]; rfl
+        · split at hstep
+          · simp only [Prod.mk.injEq] at hstep; rw [← hstep.2]
+          · split at hstep <;> (simp only [Prod.mk.injEq] at hstep; rw [← hstep.2]; try rfl)
+      rw [this]
+    | update => simp [Op.isUser] at hu
+
+/-- **no sequence of operations creates value** (induction over the sequence; every rejected call included):
+    after any list of buys, sells, deposits, withdrawals and balance reads at a frozen market with
+    bids ≤ mark ≤ asks the account value is at most the initial one plus the dust of the deposits made. -/
+theorem C03_deribit_sequence_no_value_created (c : TokenCfg) (hc : 0 ≤ c.tradeFee) (ops : List Op) (s : DState)
+    (hu : ∀ o ∈ ops, o.isUser = true) (hf : FrozenOK c s.book) (hn : NamesNodup s.book) (hp : PosInv s) :
+    acctValue c (runOps DCtx.exact c s ops) ≤ acctValue c s + dustBound c s ops := by
+  induction ops generalizing s with
+  | nil => simp [runOps, dustBound]
+  | cons o os ih =>
+    have ho := hu o List.mem_cons_self
+    have h1 := C03_deribit_step_no_value_created c hc s o ho hf hp
+    obtain ⟨hf', hn'⟩ := frozenOK_step c s o hf hn
+    have hp' := posInv_step c s o ho hp
+    have h2 := ih (step DCtx.exact c s o).2 (fun o' ho' => hu o' (List.mem_cons_of_mem _ ho')) hf' hn' hp'
+    simp only [dustBound, add_zero] at h1
+    show acctValue c (runOps DCtx.exact c (step DCtx.exact c s o).2 os) ≤ _
+    simp only [dustBound]
+    linarith
+
+
+/-! ### nothing becomes negative, nothing is over-redeemed -/
+
+namespace Deribit
+/-- cash, option amounts and (unless the broker allows overdrafts) wallet balances are non-negative -/
+def NonNeg (s : DState) : Prop :=
+  0 ≤ s.cash ∧ (∀ kp ∈ s.positions, 0 ≤ kp.2.amount) ∧ (s.allowNeg = false → ∀ tb ∈ s.wallet, 0 ≤ tb.2)
+
+theorem tradeFee_le_premium (c : TokenCfg) (hc : 0 ≤ c.tradeFee) (a p : Rat) (ha : 0 ≤ a) (hp : 0 ≤ p) :
+    tradeFee DCtx.exact c a p ≤ p := by
+  unfold tradeFee
+  simp only [exact_num, NumCtx.exact_mul]
+  have hm : maxFeeRate = 125 / 1000 := C15_constants.2.2.1
+  have h0 : 0 ≤ min (c.tradeFee * a) (maxFeeRate * p) := le_min (mul_nonneg hc ha) (by rw [hm]; positivity)
+  calc roundDec c.feeExp (min (c.tradeFee * a) (maxFeeRate * p))
+      ≤ 2 * min (c.tradeFee * a) (maxFeeRate * p) := roundDec_le_two _ h0
+    _ ≤ 2 * (maxFeeRate * p) := by linarith [min_le_right (c.tradeFee * a) (maxFeeRate * p)]
+    _ ≤ p := by rw [hm]; linarith
+end Deribit
+
+/-- **no holding ever becomes negative** (exact arithmetic, bid prices ≥ 0): cash, every option amount and every
+    wallet balance stay non-negative through any operation, accepted or rejected -/
+theorem C03_deribit_nonneg_preserved (c : TokenCfg) (hc : 0 ≤ c.tradeFee) (s : DState) (op : Op) (hu : op.isUser = true)
+    (hf : FrozenOK c s.book) (hnn : NonNeg s) : NonNeg (step DCtx.exact c s op).2 := by
+  rcases hstep : step DCtx.exact c s op with ⟨o, s'⟩
+  cases o with
+  | error e => rw [step_err hstep]; exact hnn
+  | ok res =>
+    cases op with
+    | buy r =>
+      obtain ⟨_, ck, hck, fills, _, _, _, _, _, _, _, hcash0, hs'⟩ := buy_ok hstep
+      obtain ⟨_, _, hmin, hamt, _⟩ := checkTx_ok hck
+      have hca : 0 ≤ ck.amount := by rw [hamt]; exact roundDec_nonneg _ (le_trans (minAmount_pos c).le hmin)
+      refine ⟨hcash0, ?_, by rw [hs']; exact hnn.2.2⟩
+      intro kp hkp
+      rw [hs'] at hkp
+      rcases alist_mem_set _ _ _ _ hkp with h | h
+      · rw [h]
+        simp only [boughtPosition]
+        cases hg : AList.get? s.positions r.name with
+        | none => exact hca
+        | some p =>
+          simp only [exact_num, NumCtx.exact_add]
+          have := hnn.2.1 _ (get_mem hg)
+          simp only [] at this
+          linarith
+      · exact hnn.2.1 kp h
+    | sell r =>
+      obtain ⟨_, ck, p, bids, hck, hget, hle, hbids, fills, prem, fee, hfills, hprem, hfee, _, hs'⟩ := sell_ok hstep
+      obtain ⟨hfind, _, _, _, _⟩ := checkTx_ok hck
+      have hmem := findInstr_mem hfind
+      obtain ⟨f, hfl⟩ := availBids_filter hbids
+      obtain ⟨_, hnn', hall⟩ := fills_props hck ck.ins.bids f (by simp [availSide, hbids, hfl]) (hf.inv ck.ins hmem).2
+      rw [← hfl, ← hfills] at hall
+      have hcost0 : 0 ≤ fillCost fills := fillCost_nonneg fills (fun x hx => by
+        obtain ⟨h0, l, hl, _, hpe⟩ := hall x hx
+        exact ⟨h0, hpe ▸ hf.bids_nonneg ck.ins hmem l hl⟩)
+      rw [premiumOf_exact] at hprem
+      have hfee : fee ≤ prem := by rw [hfee, hprem]; exact tradeFee_le_premium c hc _ _ hnn' hcost0
+      refine ⟨?_, ?_, by rw [hs']; exact hnn.2.2⟩
+      · rw [hs']; simp only [exact_num, NumCtx.exact_add, NumCtx.exact_sub]; linarith [hnn.1]
+      · intro kp hkp
+        rw [hs'] at hkp
+        simp only [] at hkp
+        split at hkp
+        · exact hnn.2.1 kp (List.mem_filter.mp hkp).1
+        · rcases alist_mem_set _ _ _ _ hkp with h | h
+          · rw [h]; simp only [soldPosition, exact_num, NumCtx.exact_sub]; linarith
+          · exact hnn.2.1 kp h
+    | deposit a =>
+      simp only [step] at hstep
+      have ha := (C03_deribit_deposit_dust c s s' a res hstep).2
+      unfold deposit at hstep
+      split at hstep
+      · simp at hstep
+      · split at hstep
+        · simp at hstep
+        · simp at hstep
+        · rename_i w hw
+          simp only [Prod.mk.injEq] at hstep
+          obtain ⟨_, hs⟩ := hstep
+          subst hs
+          refine ⟨by simp only [exact_num, NumCtx.exact_add]; linarith [hnn.1], hnn.2.1, ?_⟩
+          intro hneg tb htb
+          simp only [] at hneg htb
+          unfold Wallet.debit at hw
+          cases hg : AList.get? s.wallet c.token with
+          | some b =>
+            simp only [hg] at hw
+            split at hw
+            · rename_i b' hsub
+              simp only [Except.ok.injEq] at hw
+              subst hw
+              rcases alist_mem_set _ _ _ _ htb with h | h
+              · rw [h]
+                have hb : 0 ≤ b := by
+                  have hm : (c.token, b) ∈ s.wallet := by
+                    simp only [AList.get?, Option.map_eq_some_iff] at hg
+                    obtain ⟨kp, hfind, rfl⟩ := hg
+                    have := List.find?_some hfind
+                    simp only [decide_eq_true_eq] at this
+                    rw [← this]; exact List.mem_of_find?_eq_some hfind
+                  exact hnn.2.2 hneg _ hm
+                exact (assetSub_exact hsub).2 hneg hb
+              · exact hnn.2.2 hneg tb h
+            · simp at hw
+          | none =>
+            simp only [hg, hneg, Bool.false_eq_true, if_false] at hw
+            simp at hw
+    | withdraw a =>
+      simp only [step] at hstep
+      obtain ⟨_, ha, _, hc0⟩ := C03_deribit_withdraw_conserves c s s' a res hstep
+      unfold withdraw at hstep
+      split at hstep
+      · simp at hstep
+      · simp only [] at hstep
+        split at hstep
+        · simp at hstep
+        · simp only [Prod.mk.injEq] at hstep
+          obtain ⟨_, hs⟩ := hstep
+          subst hs
+          refine ⟨hc0, hnn.2.1, ?_⟩
+          intro hneg tb htb
+          simp only [Wallet.credit, assetAdd, exact_num, NumCtx.exact_add] at htb
+          cases hg : AList.get? s.wallet c.token with
+          | some b =>
+            simp only [hg] at htb
+            rcases alist_mem_set _ _ _ _ htb with h | h
+            · rw [h]
+              have hm : (c.token, b) ∈ s.wallet := by
+                simp only [AList.get?, Option.map_eq_some_iff] at hg
+                obtain ⟨kp, hfind, rfl⟩ := hg
+                have := List.find?_some hfind
+                simp only [decide_eq_true_eq] at this
+                rw [← this]; exact List.mem_of_find?_eq_some hfind
+              have := hnn.2.2 hneg _ hm
+              simp only [] at this ⊢
+              linarith
+            · exact hnn.2.2 hneg tb h
+          | none =>
+            simp only [hg] at htb
+            rcases alist_mem_set _ _ _ _ htb with h | h
+            · rw [h]; simp only []; linarith
+            · exact hnn.2.2 hneg tb h
+    | balance =>
+      simp only [step, getMarketBalance] at hstep
+      split at hstep
+      · simp only [Prod.mk.injEq] at hstep; rw [← hstep.2]; exact hnn
+      · split at hstep
+        · simp only [Prod.mk.injEq] at hstep; rw [← hstep.2]; exact hnn
+        · split at hstep <;> (simp only [Prod.mk.injEq] at hstep; rw [← hstep.2]; exact hnn)
+    | update => simp [Op.isUser] at hu
+
+/-- **no over-redemption**: an accepted sell is filled for exactly the (rounded) amount, which is at most the
+    holding; an accepted withdrawal is at most the cash -/
+theorem C03_deribit_no_over_redemption (c : TokenCfg) (s s' : DState) (r : Req) (fills : List Fill) (fee : Rat)
+    (hf : FrozenOK c s.book) (h : sell DCtx.exact c s r = (.ok (.trade fills fee), s')) :
+    ∃ p, AList.get? s.positions r.name = some p ∧ fillSum fills ≤ p.amount := by
+  obtain ⟨_, ck, p, bids, hck, hget, hle, hbids, fills', _, _, hfills, _, _, hres, _⟩ := sell_ok h
+  simp only [Res.trade.injEq] at hres
+  obtain ⟨rfl, _⟩ := hres
+  obtain ⟨f, hfl⟩ := availBids_filter hbids
+  have hmem := findInstr_mem (checkTx_ok hck).1
+  obtain ⟨hsum, _, _⟩ := fills_props hck ck.ins.bids f (by simp [availSide, hbids, hfl]) (hf.inv ck.ins hmem).2
+  rw [← hfl, ← hfills] at hsum
+  exact ⟨p, hget, hsum ▸ hle⟩
+
+/-! ### non-vacuity -/
+
+namespace Deribit
+def c03Instr : Instr :=
+  { name := "ETH-22SEP23-1650-C", stateOpen := true, kind := .call, strike := 1650, expiry := 30000,
+    mark := 287 / 10000, underlying := 165194 / 100, delta := 52071 / 100000, gamma := 342 / 100000,
+    asks := [⟨29 / 1000, 605, false⟩, ⟨59 / 2000, 197, true⟩], bids := [⟨28 / 1000, 51, false⟩, ⟨55 / 2000, 585, false⟩] }
+def c03State : DState :=
+  { cash := 100, positions := [], book := [c03Instr], wallet := [("ETH", 5)], allowNeg := false, actions := [],
+    cache := none, flagOpen := true, now := 360, price := 165194 / 100, priceDec := false }
+def c03Buy (a : Rat) : Op := .buy { name := "ETH-22SEP23-1650-C", amount := a, priceTok := none, priceUsd := none, mult := none }
+def c03Sell (a : Rat) : Op := .sell { name := "ETH-22SEP23-1650-C", amount := a, priceTok := none, priceUsd := none, mult := none }
+end Deribit
+
+section
+open Deribit
+example : FrozenOK ethCfg c03State.book := by
+  have hm : roundDec ethCfg.feeExp c03Instr.mark = 287 / 10000 := by decide +kernel
+  refine ⟨?_, ?_, ?_, ?_, ?_⟩ <;> intro i hi <;> simp only [c03State, List.mem_singleton] at hi <;> subst hi
+  · refine ⟨⟨by unfold PricesNodup; decide +kernel, ?_⟩, ⟨by unfold PricesNodup; decide +kernel, ?_⟩⟩ <;>
+      (intro l hl; simp only [c03Instr, List.mem_cons, List.not_mem_nil, or_false] at hl; rcases hl with rfl | rfl <;> norm_num)
+  · simp [c03Instr]; norm_num
+  · intro l hl; rw [hm]; simp only [c03Instr, List.mem_cons, List.not_mem_nil, or_false] at hl; rcases hl with rfl | rfl <;> norm_num
+  · intro l hl; rw [hm]; simp only [c03Instr, List.mem_cons, List.not_mem_nil, or_false] at hl; rcases hl with rfl | rfl <;> norm_num
+  · intro l hl; simp only [c03Instr, List.mem_cons, List.not_mem_nil, or_false] at hl; rcases hl with rfl | rfl <;> norm_num
+example : PosInv c03State := ⟨by simp [c03State], by simp [c03State]⟩
+example : NonNeg c03State := ⟨by simp [c03State], by simp [c03State], by intro _ tb h; simp [c03State] at h; subst h; norm_num⟩
+example : (0 : Rat) ≤ ethCfg.tradeFee ∧ (0 : Rat) ≤ btcCfg.tradeFee := by
+  rw [C15_constants.1, C15_constants.2.1]; norm_num
+-- buy 700 (two levels), sell 600 back, move cash around, sell the rest: fees and spread are lost, nothing is gained
+example : acctValue ethCfg (runOps DCtx.exact ethCfg c03State [c03Buy 700, c03Sell 600, .withdraw 1, .deposit 1, c03Sell 100, c03Sell 1]) ≤
+    acctValue ethCfg c03State := by decide +kernel
+example : ¬ acctValue ethCfg c03State ≤ acctValue ethCfg (runOps DCtx.exact ethCfg c03State [c03Buy 700, c03Sell 600]) := by
+  decide +kernel
+end
 
 end Demeter
